@@ -84,13 +84,21 @@ fn streaming_encode(k: usize, r: usize, shards: &[Vec<u8>]) -> Result<Vec<Vec<u8
 }
 
 fn encode_case(rng: &mut Rng, out: &mut CaseOut) {
-    let (k, r) = counts(rng);
-    let size = match rng.below(8) {
+    let (mut k, mut r) = counts(rng);
+    let mut size = match rng.below(8) {
         0 => 0,
         1 => 1,
         2 => 63,
         _ => *rng.pick(&[2usize, 4, 30, 64, 66, 130]),
     };
+    // now and then few but very long shards (64 KiB ... 3 MiB): where a
+    // one-shot function would start to work piecewise
+    if rng.chance(1, 50) {
+        k = rng.range(1, 5);
+        r = rng.range(1, 4);
+        size = *rng.pick(&[65_536usize, 262_144, 1 << 20, (1 << 20) + 64, 2 << 20, 3 << 20]) + 2 * rng.below(40);
+        out.tag("encode:very-long-shards");
+    }
     let kk = k.min(70); // number of shards actually built
     let n = match rng.below(8) {
         0 => 0,
@@ -265,9 +273,15 @@ fn streaming_decode(
 }
 
 fn decode_case(rng: &mut Rng, out: &mut CaseOut) {
-    let (k, r) = counts(rng);
+    let (mut k, mut r) = counts(rng);
+    let mut size = *rng.pick(&[2usize, 4, 30, 64, 66, 130]);
+    if rng.chance(1, 50) {
+        k = rng.range(1, 5);
+        r = rng.range(1, 4);
+        size = *rng.pick(&[65_536usize, 262_144, 1 << 20, (1 << 20) + 64, 2 << 20]) + 2 * rng.below(40);
+        out.tag("decode:very-long-shards");
+    }
     let supported = gen::envelope(k, r);
-    let size = *rng.pick(&[2usize, 4, 30, 64, 66, 130]);
     // real data when the configuration is small and supported
     let real = supported && k <= 70 && r <= 70;
     let (originals, recovery) = if real {
